@@ -50,7 +50,7 @@ CFG = {
         "startup:entry-without-equals", "startup:empty-value", "startup:value-with-equals", "startup:non-utf8-argument",
         "startup:empty-argument", "startup:long-argument", "startup:non-utf8-value", "startup:empty-environment",
         "startup:build-dyn-debug", "startup:build-dyn-release", "startup:build-static-debug", "startup:build-static-release",
-        "startup:build-pie-debug", "startup:build-pie-release", "startup:build-pierel-debug", "startup:relocation-slots-inspected", "startup:many-arguments", "startup:large-environment",
+        "startup:build-pie-debug", "startup:build-pie-release", "startup:build-pierel-debug", "startup:build-minimal-features-debug", "startup:build-minimal-features-release", "startup:relocation-slots-inspected", "startup:many-arguments", "startup:large-environment",
         "lookup-var:key-is-proper-extension-of-a-name", "lookup-var-unix:key-is-proper-extension-of-a-name",
     ],
     "level_text": "exploration: seeded random sampling of (argv, envp, keys, build); no exhaustive sub-domain",
